@@ -406,6 +406,9 @@ def family_A(tier):
                 'defmatch': [('defmatch', 'r', tname, var('n'), [(lit_int(1), [('expr', val(0))]), (lit_int(2), [('print', lit_str("two")), ('expr', val(1))]), ('_', [('expr', val(2))])])],
                 'defmatch-if': [('defmatch', 'r', tname, var('n'), [(lit_int(1), [('if', c, [('expr', val(0))], [('expr', val(1))])]), ('_', [('expr', val(2))])])],
                 'reassign-if': [('def', 'r', tname, val(2), False), ('assign', var('r'), ('ifx', c, val(0), val(1)))],
+                'defmatch-ifx': [('defmatch', 'r', tname, var('n'), [(lit_int(1), [('expr', ('ifx', c, val(0), val(1)))]), ('_', [('print', lit_str("other")), ('expr', ('ifx', c, val(2), val(0)))])])],
+                'defmatch-line-ifx': [('defmatch', 'r', tname, var('n'), [(lit_int(1), [('expr', ('ifx', c, val(0), val(1)))], 'line'), (lit_int(2), [('expr', val(1))], 'line'), ('_', [('expr', ('ifx', c, val(2), val(0)))], 'line')])],
+                'defif-block-ifx': [('defif', 'r', tname, c, [('print', lit_str("then")), ('expr', ('ifx', ('bin', '>', var('n'), lit_int(1)), val(0), val(2)))], [('expr', val(1))])],
                 'defif-noty': [('defif', 'r', None, c, [('print', lit_str("then")), ('expr', val(0))], [('expr', val(1))])],
             }
             for pname, body in progs.items():
@@ -544,6 +547,12 @@ def family_H(tier):
             r_arms = [(v, c, [('return', lit_int(-k))]) for v, c, k in arms]
             yield emit('fun-arm-return', [raiser, ('fun', 'safe', [('n', 'Int', None)], 'Int', [], [('handle', ('def', 'r', 'Int', ('call', 'risky', [var('n')]), False), r_arms), ('expr', ('bin', '+', var('r'), lit_int(1)))], 'block'),
                                           ('print', ('call', 'safe', [lit_int(sel)]))], ['arms:%d' % ai, 'sel:%d' % sel, 'pos:fun-arm-return'])
+    # arm whose value is itself a one-line if-expression
+    for sel in (0, 1, 3):
+        x_arms = [(v, c, [('expr', ('ifx', ('bin', '>', var('big'), lit_int(0)), lit_int(-k), lit_int(-k - 10)))]) for v, c, k in arm_sets[0]]
+        yield emit('init-ifx-arm', [raiser, ('def', 'big', 'Int', lit_int(1), False), ('handle', ('def', 'r', 'Int', ('call', 'risky', [lit_int(sel)]), False), x_arms), ('print', var('r'))], ['sel:%d' % sel, 'pos:init', 'arm:ifx'])
+        l_arms = [(v, c, b, 'line') for v, c, b in x_arms]
+        yield emit('init-ifx-arm-line', [raiser, ('def', 'big', 'Int', lit_int(1), False), ('handle', ('def', 'r', 'Int', ('call', 'risky', [lit_int(sel)]), False), l_arms), ('print', var('r'))], ['sel:%d' % sel, 'pos:init', 'arm:ifx', 'arm:line'])
     # exception escapes a declaring function and reaches top level / an outer handle
     for sel in (0, 1, 3):
         yield emit('escape', [raiser, ('fun', 'mid', [('n', 'Int', None)], 'Int', ['E1', 'E3'], [('expr', ('bin', '+', ('call', 'risky', [var('n')]), lit_int(1)))]),
